@@ -69,6 +69,7 @@ func cOeffFeld(m int) int          { return 100*m + 14 } // OeffTyp_x.oeff_feld
 func cPrivFeld(m int) int          { return 100*m + 15 } // OeffTyp_x.priv_feld
 func cPTOeffFeld(m int) int        { return 100*m + 16 } // PrivTyp.oeff_feld
 func cPTPrivFeld(m int) int        { return 100*m + 17 } // PrivTyp.priv_feld
+func cPrivOp(m int) int            { return 7000 + m }   // result of the private overload of "verkettet mit" in library module m
 func cGemV(m int) int              { return 100*m + 18 } // gem_v
 func fReturn(m int, oeffV int) int { return oeffV + cPrivV(m) + cPrivK(m) + cGemV(m) + cPTPrivFeld(m) }
 
@@ -247,7 +248,11 @@ func ModuleSource(g Graph, m int, bare bool) string {
 	fmt.Fprintf(&sb, "Wir nennen die öffentliche Kombination aus\n\tder öffentlichen Zahl oeff_feld mit Standardwert %d,\n\tder Zahl priv_feld mit Standardwert %d,\neinen %s, und erstellen sie so:\n\t\"ein neuer %s\"\n\n", cOeffFeld(m), cPrivFeld(m), Name(KT, m), Name(KT, m))
 	fmt.Fprintf(&sb, "Die Funktion melde_init gibt eine Zahl zurück, macht:\n\tSchreibe \"init %s\" auf eine Zeile.\n\tGib %d zurück.\nUnd kann so benutzt werden:\n\t\"melde_init\"\n\n", L, base(m))
 	fmt.Fprintf(&sb, "Die öffentliche Zahl %s ist melde_init.\n\n", Name(KV, m))
-	fmt.Fprintf(&sb, "Die öffentliche Funktion %s gibt eine Zahl zurück, macht:\n\tSchreibe \"oeff_f aus %s\" auf eine Zeile.\n\tpriv_f.\n\tgem_f.\n\tDer PrivTyp p ist ein neuer PrivTyp.\n\tGib %s plus priv_v plus priv_k plus gem_v plus (priv_feld von p) zurück.\nUnd kann so benutzt werden:\n\t\"%s\"\n\n",
+	// a private operator overload on built-in operand types, the same in every library module: it must
+	// apply inside its own module (oeff_f_x prints its result) and nowhere else (main prints the length
+	// of the built-in concatenation)
+	fmt.Fprintf(&sb, "Die Funktion priv_op mit den Parametern a und b vom Typ Zahl und Zahl, gibt eine Zahl zurück, macht:\n\tGib %d zurück.\nUnd überlädt den \"verkettet mit\" Operator.\n\n", cPrivOp(m))
+	fmt.Fprintf(&sb, "Die öffentliche Funktion %s gibt eine Zahl zurück, macht:\n\tSchreibe \"oeff_f aus %s\" auf eine Zeile.\n\tpriv_f.\n\tgem_f.\n\tSchreibe (1 verkettet mit 2) auf eine Zeile.\n\tDer PrivTyp p ist ein neuer PrivTyp.\n\tGib %s plus priv_v plus priv_k plus gem_v plus (priv_feld von p) zurück.\nUnd kann so benutzt werden:\n\t\"%s\"\n\n",
 		Name(KF, m), L, Name(KV, m), Name(KF, m))
 	sum := "1"
 	for i, e := range g.Imp[m] {
@@ -291,7 +296,7 @@ func MainSource(g Graph, bare bool) string {
 			}
 		}
 	}
-	sb.WriteString("priv_f.\ngem_f.\nSchreibe priv_v auf eine Zeile.\nSchreibe priv_k auf eine Zeile.\nSchreibe gem_v auf eine Zeile.\nDer PrivTyp p ist ein neuer PrivTyp.\nSchreibe (priv_feld von p) auf eine Zeile.\nSchreibe \"ende\" auf eine Zeile.\n")
+	sb.WriteString("priv_f.\ngem_f.\nSchreibe priv_v auf eine Zeile.\nSchreibe priv_k auf eine Zeile.\nSchreibe gem_v auf eine Zeile.\nDer PrivTyp p ist ein neuer PrivTyp.\nSchreibe (priv_feld von p) auf eine Zeile.\nSchreibe (die Länge von (1 verkettet mit 2)) auf eine Zeile.\nSchreibe \"ende\" auf eine Zeile.\n")
 	return sb.String()
 }
 
